@@ -36,7 +36,7 @@ __CPROVER_assigns(g_state, g_pos, g_cur, g_prevch, g_b0, g_b1, g_b2, g_b3)
 /* accept => every byte was consumed as part of a well-formed sequence (asserted at every step) and the automaton accepts */
 __CPROVER_ensures(__CPROVER_return_value == 0 ==> (g_pos == g_len && L_ACC(g_state)))
 /* reject => the specification rejects: ill-formed UTF-8 at g_pos, or the automaton is dead / ends non-accepting */
-__CPROVER_ensures(__CPROVER_return_value != 0 ==> (g_len == 0 || (g_pos < g_len) || g_state == L_DEAD || (g_pos == g_len && !L_ACC(g_state))))
+__CPROVER_ensures(__CPROVER_return_value != 0 ==> (g_len == 0 || (__CPROVER_return_value == -EEAV_LPART_INVALID_UTF8 && g_pos < g_len) || g_state == L_DEAD || (g_pos == g_len && !L_ACC(g_state))))
 /* C15 */
 __CPROVER_ensures(__CPROVER_return_value == 0 || __CPROVER_return_value == -EEAV_LPART_EMPTY || __CPROVER_return_value == -EEAV_LPART_INVALID_UTF8 ||
         __CPROVER_return_value == -EEAV_LPART_CTRL_CHAR || __CPROVER_return_value == -EEAV_LPART_MISPLACED_QUOTE || __CPROVER_return_value == -EEAV_LPART_SPECIAL ||
@@ -46,7 +46,7 @@ __CPROVER_ensures((__CPROVER_return_value == -EEAV_LPART_INVALID_UTF8) ==> (g_po
 __CPROVER_ensures(__CPROVER_return_value == -EEAV_LPART_CTRL_CHAR ==> (g_cur >= 0 && (g_cur < 32 || g_cur == 127)))
 __CPROVER_ensures(__CPROVER_return_value == -EEAV_LPART_TOO_MANY_DOTS ==> (g_cur == '.' && g_prevch == '.'))
 __CPROVER_ensures(__CPROVER_return_value == -EEAV_LPART_MISPLACED_DOT ==> (g_cur == '.' && (g_prevch == -1 || g_pos == g_len)))
-__CPROVER_ensures(__CPROVER_return_value == -EEAV_LPART_SPECIAL ==> ((g_cur <= 127 && ((L_IS_SPECIAL(g_cur) && g_cur != '"' && g_cur != '.') || g_cur == ' ' || L_IS_RFC20_CHAR(g_cur))) || (g_cur > 127 && g_state == L_DEAD)))
+__CPROVER_ensures(__CPROVER_return_value == -EEAV_LPART_SPECIAL ==> (g_state == L_DEAD && ((g_cur <= 127 && ((L_IS_SPECIAL(g_cur) && g_cur != '"' && g_cur != '.') || g_cur == ' ' || L_IS_RFC20_CHAR(g_cur))) || g_cur > 127)))
 __CPROVER_ensures(__CPROVER_return_value == -EEAV_LPART_MISPLACED_QUOTE ==> (g_cur == '"' || g_prevch == '"'))
 __CPROVER_ensures(__CPROVER_return_value == -EEAV_LPART_UNQUOTED ==> (g_pos == g_len && (g_state == L_QTEXT || g_state == L_QPAIR)))
 ;
